@@ -393,35 +393,55 @@ WS_SET = {9, 10, 12, 13, 32}
 
 
 def check_set(cx, chk):
+    """The builtin skipper, read off its semantic summary: every trip round its loop has assumed that the first byte is one of
+    the five ASCII whitespace bytes and advances the state by exactly one byte; every exit returns Ok."""
+    from .. import sem
     rt = cx.runtime
     ps = [p for p in rt.fns if p.endswith("builtin_parsers::parse_Whitespace")]
     if not ps:
         chk.anchor_missing("C08.set", "runtime parse_Whitespace")
         return
     b = cx.body(rt, ps[0])
-    adv = [(i, t) for i, t in b.calls() if last(t["func"]["path"]) in ("advance", "advance_safe")]
-    if len(adv) != 1:
-        chk.violation("C08.set", "shape", "builtin whitespace skipper does not have exactly one advance", cx.site(b))
+    S = sem.Sem(cx, rt, inline=lambda p: p in rt.fns and "mir" in rt.fns[p] and not rt.fns[p].get("unsafe") and "{closure" not in p)
+    try:
+        sm = S.summarize(ps[0])
+    except sem.SemLimit:
+        sm = None
+    if sm is None or not sm.loopbacks:
+        chk.violation("C08.set", "shape", "builtin whitespace skipper does not summarise to a loop", cx.site(b))
         return
-    i, t = adv[0]
-    atoms = b.atoms(i)
-    cls = None
-    for (e, v, d) in atoms:
-        if v is True and is_call(e, "is_ascii_whitespace"):
-            cls = set(WS_SET)
-        if v is True and is_call(e, "is_whitespace"):
+    always_ok = all(l.ret is not None and l.ret[0] == "agg" and l.ret[2] == "Ok" for l in sm.returns) and bool(sm.returns) and \
+        not any(l.kind == "panic" for l in sm.leaves)
+    cls = set()
+    lengths = set()
+    for l in sm.loopbacks:
+        mine = None
+        for (e, v) in l.assume:
+            if v is True and is_call(e, "is_ascii_whitespace"):
+                mine = set(WS_SET)
+            elif v is True and is_call(e, "is_whitespace"):
+                mine = "unicode"
+            elif e[0] == "index" and isinstance(v, int) and not isinstance(v, bool):
+                mine = {v}
+            elif v is True and e[0] == "binop" and e[1] == "Eq":
+                for x, y in ((e[2], e[3]), (e[3], e[2])):
+                    if x[0] == "const" and isinstance(x[2], int) and y[0] == "index":
+                        mine = {x[2]}
+        if mine == "unicode" or cls == "unicode":
             cls = "unicode"
-    # explicit comparisons: byte0 == c (as matches!/||) appear as switch on the byte value
-    for (e, v, d) in atoms:
-        if e[0] == "index" and isinstance(v, int):
-            cls = (cls or set()) | {v}
-    length = norm(b.expr_op(t["args"][1]))
-    always_ok = all(norm(b.expr_rv(d0[3]))[2] == "Ok" for d0 in b.defs.get(0, []) if d0[2] == "rv")
+        elif mine is None:
+            cls = "unconditional"
+            break
+        else:
+            cls |= mine
+        advs = [x for x in walk(l.ret) if is_call(x, "advance", "advance_safe") and len(x[2]) == 2]
+        lengths |= {x[2][1] for x in advs} or {None}
+    length = lengths.pop() if len(lengths) == 1 else None
     if cls == WS_SET and length == ("const", "usize", 1) and always_ok:
-        chk.ok("C08.set", "builtin", {"byte_class": sorted(WS_SET), "advance": 1, "never_fails": True})
+        chk.ok("C08.set", "builtin", {"byte_class": sorted(WS_SET), "advance": 1, "never_fails": True, "trips": len(sm.loopbacks)})
     else:
         chk.violation("C08.set", "byte-class", "the builtin skipper's class is %s (expected the five ASCII whitespace bytes "
-                      "9,10,12,13,32), advance=%s, always Ok=%s" % (sorted(cls) if isinstance(cls, set) else cls, mir.show(length), always_ok), cx.site(b, i))
+                      "9,10,12,13,32), advance=%s, always Ok=%s" % (sorted(cls) if isinstance(cls, set) else cls, mir.show(length) if length else lengths, always_ok), cx.site(b))
 
 
 def skeleton(t):
